@@ -40,24 +40,17 @@ def run(ctx):
             seen['poly'] = a[0]
             return [Rat.sym('rho')]
 
-        def mmh(tag):
-            def h(it, a, k):
-                return (tag, it.iterate(a[0]), k.get('key'))
-            return h
-
         def th(it, cname=cname, n=n, seen=seen, Zq=Zq):
             seen.clear()
             CURRENT_IT[0] = it
             P = cpoints(n)
             seg = it.construct('path.' + cname, *P)
             r = it.call_method(seg, 'radialrange', Zq)
-            return r, dict(seen), P
+            return r, dict(seen), P, it
 
         def judge(v, Z=Zq):
-            r, seen, P = v
+            r, seen, P, it = v
             B = lambda x: bernstein(P, x)
-            if len(r) != 2 or r[0][0] != 'min' or r[1][0] != 'max':
-                return False, 'result is not (min(...), max(...))'
             probs = []
             p = seen.get('poly')
             if not isinstance(p, PolyT):
@@ -66,25 +59,34 @@ def run(ctx):
             ok, d = decide_equal(p(T), (w.real() ** 2 + w.imag() ** 2).diff('t'))
             if ok is not True:
                 probs.append('polynomial is not d/dt |B(t)-z|^2: ' + d)
-            for tag, items, key in (r[0], r[1]):
-                probe_ok = False
-                if key is not None:
-                    # whatever form the key has, it must select the distance component of a (distance, t) pair
-                    try:
-                        from svtstatic import builtins_model as bm
-                        sel = bm._keyval(CURRENT_IT[0], key, (Rat.sym('DPROBE'), Rat.sym('TPROBE')))
-                        probe_ok = to_rat(sel).equals(Rat.sym('DPROBE'))
-                    except Exception:
-                        probe_ok = False
-                if not probe_ok:
-                    probs.append('%s is not taken by distance (the key does not select the first component of (distance, t))' % tag)
-                got = sorted((to_rat(x[0]).key(), to_rat(x[1]).key()) for x in items)
-                exp = sorted((apply_fn('abs', B(t_) - Z).key(), to_rat(t_).key()) for t_ in (Rat.const(0), Rat.const(1), Rat.sym('rho')))
-                if got != exp:
-                    probs.append('%s candidates are not {(|B(t)-z|, t) : t in 0, 1, roots}' % tag)
-            return not probs, '; '.join(probs)
+            try:
+                (dmin, tmin), (dmax, tmax) = r
+            except (TypeError, ValueError):
+                return False, 'result is not ((dmin, tmin), (dmax, tmax))'
+            cands = [(apply_fn('abs', B(t_) - Z), to_rat(t_)) for t_ in (Rat.const(0), Rat.const(1), Rat.sym('rho'))]
+            # what the path knows about the order of the candidate distances, closed under transitivity
+            nC = len(cands)
+            leq = [[i_ == j_ or path_sign(it, cands[i_][0] - cands[j_][0]) <= frozenset('-0') for j_ in range(nC)] for i_ in range(nC)]
+            for k_ in range(nC):
+                for i_ in range(nC):
+                    for j_ in range(nC):
+                        leq[i_][j_] = leq[i_][j_] or (leq[i_][k_] and leq[k_][j_])
+            for which, dd, tt in (('minimum', dmin, tmin), ('maximum', dmax, tmax)):
+                dd, tt = to_rat(dd), to_rat(tt)
+                idx = [i_ for i_, (cd, ct) in enumerate(cands) if tt.equals(ct)]
+                if not idx or not dd.equals(cands[idx[0]][0]):
+                    probs.append('the %s is not a pair (|B(t)-z|, t) with t in {0, 1, roots}' % which)
+                    continue
+                for j_, (cd, ct) in enumerate(cands):
+                    if j_ == idx[0]:
+                        continue
+                    known = leq[idx[0]][j_] if which == 'minimum' else leq[j_][idx[0]]
+                    if not known:
+                        probs.append('the %s is taken at t=%s on a path that does not know its distance to be %s that at t=%s (candidates are not compared by distance)'
+                                     % (which, short(tt, 8), 'at most' if which == 'minimum' else 'at least', short(ct, 8)))
+            return not probs, '; '.join(sorted(set(probs))[:3])
         ob('R13.1').run(fr, '%s.radialrange(z) via bezier_radialrange, z %s' % (cname, zkind), th, judge,
-                        opts={'call_hooks': {'polytools.polyroots01': pr01}, 'ext_hooks': {'builtins.min': mmh('min'), 'builtins.max': mmh('max')}})
+                        opts={'call_hooks': {'polytools.polyroots01': pr01}})
 
     # ---------------------------------------------------------------- R13.2
     fl = mdl.func('path.Line.radialrange')
